@@ -460,6 +460,12 @@ def get_model_parser(top_rule, comments_model, **kwargs):
                     encoding=encoding,
                 )
 
+                if not hasattr(model, "_tx_parser"):
+                    # The model is of an immutable type (e.g. int or str), so
+                    # `_end_model_construction` can't reach this parser and
+                    # will never restore the user classes. Do it here.
+                    self._restore_user_attr_methods()
+
             except:  # noqa
                 # Restore of user classes replaced attr methods
                 self._restore_user_attr_methods()
